@@ -273,6 +273,12 @@ def _run(P, rep, tier, prefix):
     if not (eof_ok or eof_bad):
         raise AnalysisError('no EOF path observed in %s' % ra.short)
 
+    # ---- R7 header lines of any length ----------------------------------------------------------
+    r7 = rep.rule(prefix + '-R7', 'nothing on the header path compares the length of input text with a constant (a header line may be '
+                  'arbitrarily long)', reference=1)
+    from sa.props.common import length_guard_rule
+    length_guard_rule(P, rep, r7, R=R)
+
     # ---- R4 one-byte delimiter at every call site -----------------------------------
     r4 = rep.rule(prefix + '-R4', 'every call site passes a one-byte constant delimiter', reference=1)
     sites = 0
